@@ -8,8 +8,7 @@ use serde::{Deserialize, Serialize};
 use std::cell::RefCell;
 use std::collections::BTreeMap;
 use std::panic::{catch_unwind, AssertUnwindSafe};
-use std::sync::Arc;
-use std::task::{Wake, Waker};
+use std::task::Waker;
 
 pub const MAX_IDS: usize = 64;
 
@@ -106,26 +105,74 @@ thread_local! {
     static WAKE_LOG: RefCell<WakeLog> = const { RefCell::new(WakeLog { n: 0, ev: [(0, 0); WAKE_LOG_CAP], overflow: false }) };
 }
 
-pub struct WakeTok {
-    pub id: u16,
-    pub variant: u8,
+// Wakers are plain (id, variant) tokens behind a static vtable: no reference count that a
+// library bug could corrupt, no allocation. Every clone and drop is counted, so a leaked or
+// doubly dropped `Waker` is visible as a non-zero balance (C01 oracle `waker-balance`).
+thread_local! {
+    static WAKER_BALANCE: RefCell<[[i32; 2]; MAX_IDS]> = const { RefCell::new([[0; 2]; MAX_IDS]) };
 }
-impl Wake for WakeTok {
-    fn wake(self: Arc<Self>) {
-        self.wake_by_ref()
-    }
-    fn wake_by_ref(self: &Arc<Self>) {
-        WAKE_LOG.with(|l| {
-            let mut l = l.borrow_mut();
-            if l.n < WAKE_LOG_CAP {
-                let n = l.n;
-                l.ev[n] = (self.id, self.variant);
-                l.n += 1;
-            } else {
-                l.overflow = true;
+
+fn tok(id: usize, variant: u8) -> *const () {
+    (((id << 1) | variant as usize) + 1) as *const ()
+}
+fn untok(p: *const ()) -> (usize, u8) {
+    let v = p as usize - 1;
+    ((v >> 1) % MAX_IDS, (v & 1) as u8)
+}
+
+unsafe fn vt_clone(p: *const ()) -> std::task::RawWaker {
+    let (id, v) = untok(p);
+    WAKER_BALANCE.with(|b| b.borrow_mut()[id][v as usize] += 1);
+    std::task::RawWaker::new(p, &VTABLE)
+}
+unsafe fn vt_wake(p: *const ()) {
+    vt_wake_by_ref(p);
+    vt_drop(p);
+}
+unsafe fn vt_wake_by_ref(p: *const ()) {
+    let (id, v) = untok(p);
+    WAKE_LOG.with(|l| {
+        let mut l = l.borrow_mut();
+        if l.n < WAKE_LOG_CAP {
+            let n = l.n;
+            l.ev[n] = (id as u16, v);
+            l.n += 1;
+        } else {
+            l.overflow = true;
+        }
+    })
+}
+unsafe fn vt_drop(p: *const ()) {
+    let (id, v) = untok(p);
+    WAKER_BALANCE.with(|b| b.borrow_mut()[id][v as usize] -= 1);
+}
+static VTABLE: std::task::RawWakerVTable = std::task::RawWakerVTable::new(vt_clone, vt_wake, vt_wake_by_ref, vt_drop);
+
+fn make_waker(id: usize, variant: u8) -> Waker {
+    WAKER_BALANCE.with(|b| b.borrow_mut()[id][variant as usize] += 1);
+    // Safety: the vtable functions only interpret the data pointer as a token
+    unsafe { Waker::from_raw(std::task::RawWaker::new(tok(id, variant), &VTABLE)) }
+}
+
+/// back to "only the harness' persistent handle exists" (a failed run leaks its world)
+pub fn reset_waker_balance() {
+    WAKER_BALANCE.with(|b| *b.borrow_mut() = [[1; 2]; MAX_IDS]);
+}
+
+/// (min, max) over all waker balances, not counting the harness' own persistent handle
+pub fn waker_balance_range() -> (i32, i32) {
+    WAKER_BALANCE.with(|b| {
+        let b = b.borrow();
+        let mut lo = i32::MAX;
+        let mut hi = i32::MIN;
+        for row in b.iter() {
+            for v in row {
+                lo = lo.min(*v - 1);
+                hi = hi.max(*v - 1);
             }
-        })
-    }
+        }
+        (lo, hi)
+    })
 }
 
 fn drain_wake_log(out: &mut Vec<(u16, u8)>) -> bool {
@@ -228,15 +275,15 @@ pub struct Env {
     pub live: Vec<usize>,
     /// operations executed by the implicit teardown (`World::finish`)
     pub finish_ops: Vec<Op>,
+    /// write-ahead operation log for crash isolation (flushed before the op executes)
+    pub oplog: Option<std::fs::File>,
 }
 
 impl Env {
     pub fn new() -> Env {
         let mut wakers = Vec::with_capacity(MAX_IDS);
         for id in 0..MAX_IDS {
-            let a = Waker::from(Arc::new(WakeTok { id: id as u16, variant: 0 }));
-            let b = Waker::from(Arc::new(WakeTok { id: id as u16, variant: 1 }));
-            wakers.push([a, b]);
+            wakers.push([make_waker(id, 0), make_waker(id, 1)]);
         }
         let mut dummy = Vec::new();
         drain_wake_log(&mut dummy);
@@ -260,6 +307,7 @@ impl Env {
             sim_time_ms: 0,
             live: Vec::with_capacity(MAX_IDS),
             finish_ops: Vec::new(),
+            oplog: None,
         }
     }
 
@@ -267,6 +315,7 @@ impl Env {
     pub fn reset(&mut self) {
         let mut dummy = Vec::new();
         drain_wake_log(&mut dummy);
+        reset_waker_balance();
         self.seq = 0;
         self.slots = [Slot::EMPTY; MAX_IDS];
         self.fails.clear();
@@ -301,6 +350,14 @@ impl Env {
 
     pub fn any_pending(&self, kind: u8, except: usize) -> bool {
         self.live.iter().any(|id| *id != except && self.slots[*id].st == St::Pending && self.slots[*id].kind == kind)
+    }
+
+    /// Records an operation in the write-ahead log before it is executed.
+    pub fn log_op(&mut self, op: Op) {
+        if let Some(f) = &mut self.oplog {
+            use std::io::Write;
+            let _ = writeln!(f, "{} {} {} {}", op.k, op.a, op.b, op.c);
+        }
     }
 
     pub fn next_seq(&mut self) -> u64 {
